@@ -6,7 +6,14 @@
 (* Verdict names the first clause of the statement that the returned value breaks.                 *)
 EXTENDS Drange, Batch
 
+(* A line may carry `reals` (how each argument was realised: Drange!RealsOk says which realisations   *)
+(* the quantifier admits) and `before` (what the same process did earlier: calls, edits of the default *)
+(* calendar through the public calendar API, in-place changes of lists returned earlier).  The verdict *)
+(* reads neither beyond the domain test: what a call must return is the law of the VALUES its          *)
+(* arguments denote - a call has no memory, knows no registry and no realisation.                      *)
+HasReals(o) == "reals" \in DOMAIN o
 Verdict(o) == IF ~CaseInDomain(o.t0, o.t1, o.bump) THEN "domain"
+              ELSE IF HasReals(o) /\ ~RealsOk(o.reals, o.t0, o.t1, o.bump) THEN "domain"
               ELSE IF o.out[1] \notin {"ok", "exc", "timeout"} THEN "not_a_list"
               ELSE Explain(o.t0, o.t1, o.bump, o.out)
 
